@@ -16,10 +16,46 @@ import (
 type State struct {
 	Heap   *Heap
 	refine map[ssa.Value]Val // edge-local narrowing of SSA values (current activation only)
+	// facts are branch outcomes established by calls that have returned: a callee that comes back only along
+	// paths on which a test went one way (the others panic) leaves that outcome in force for what follows.
+	// They speak about terms, not locations, so later stores do not invalidate them.
+	facts []GuardInfo
+}
+
+// intersectFacts keeps the facts present with the same outcome on both sides.
+func intersectFacts(a, b []GuardInfo) []GuardInfo {
+	var out []GuardInfo
+	for _, x := range a {
+		for _, y := range b {
+			if x.Key == y.Key && x.Outcome == y.Outcome {
+				out = append(out, x)
+				break
+			}
+		}
+	}
+	return out
+}
+
+// unionFacts appends the facts of b that a lacks.
+func unionFacts(a, b []GuardInfo) []GuardInfo {
+	out := append([]GuardInfo(nil), a...)
+	for _, y := range b {
+		dup := false
+		for _, x := range out {
+			if x.Key == y.Key {
+				dup = true
+				break
+			}
+		}
+		if !dup {
+			out = append(out, y)
+		}
+	}
+	return out
 }
 
 func (s *State) fork() *State {
-	n := &State{Heap: s.Heap.Fork()}
+	n := &State{Heap: s.Heap.Fork(), facts: append([]GuardInfo(nil), s.facts...)}
 	if len(s.refine) > 0 {
 		n.refine = make(map[ssa.Value]Val, len(s.refine))
 		for k, v := range s.refine {
@@ -32,6 +68,7 @@ func (s *State) fork() *State {
 // Event is something a rule may want to look at: calls that leave the module,
 // bus primitives, panics, builtin copies.
 type Event struct {
+	Seq    int    // position in the common sequence of events and stores
 	Kind   string // "ext-call", "slot-call", "panic", "fatal", "copy", "append", "unknown-call", "map-update", "map-lookup"
 	Callee string
 	Method string
@@ -48,6 +85,7 @@ type Event struct {
 }
 
 type StoreEvent struct {
+	Seq    int // position in the common sequence of events and stores
 	Key    string
 	Obj    *Obj
 	Path   []Sel
@@ -80,6 +118,7 @@ type Hooks struct {
 }
 
 type Interp struct {
+	seq        int
 	In         *Interner
 	Ops        Ops
 	Hooks      Hooks
@@ -162,6 +201,7 @@ func (ip *Interp) Reset() {
 	ip.gate = ""
 	ip.curSt = nil
 	ip.totalForks = 0
+	ip.seq = 0
 	ip.Events = ip.Events[:0]
 	ip.Stores = ip.Stores[:0]
 	ip.Imprec = nil
@@ -216,7 +256,7 @@ type GuardInfo struct {
 
 // GuardList is Guards with the comparisons' operands.
 func (ip *Interp) GuardList(st *State) []GuardInfo {
-	var out []GuardInfo
+	out := []GuardInfo{} // never nil: an event that records its guards gets the path-wide list even when none is local
 	if len(ip.acts) == 0 || st == nil {
 		return out
 	}
@@ -240,6 +280,17 @@ func (ip *Interp) GuardList(st *State) []GuardInfo {
 			}
 			key, neg := GateOf(ev)
 			out = append(out, GuardInfo{Key: key, Outcome: (b.K == TriT) != neg, Cmp: ev.Cmp})
+		}
+	}
+	for _, f := range st.facts {
+		dup := false
+		for _, g := range out {
+			if g.Key == f.Key {
+				dup = true
+			}
+		}
+		if !dup {
+			out = append(out, f)
 		}
 	}
 	return out
@@ -365,6 +416,11 @@ func (ip *Interp) Guards(st *State) map[string]bool {
 			g[key] = (b.K == TriT) != neg
 		}
 	}
+	for _, f := range st.facts {
+		if _, ok := g[f.Key]; !ok {
+			g[f.Key] = f.Outcome
+		}
+	}
 	return g
 }
 func (ip *Interp) CurPos() token.Pos { return ip.curPos }
@@ -393,6 +449,8 @@ func (ip *Interp) event(e Event) *Event {
 		e.Pos = ip.curPos
 	}
 	e.Stack = ip.stackNames()
+	ip.seq++
+	e.Seq = ip.seq
 	if e.PathL == nil && ip.curSt != nil {
 		e.PathL = ip.PathGuardList(ip.curSt)
 	}
@@ -905,7 +963,7 @@ func (ip *Interp) Call(fn *ssa.Function, args []Val, bind []Val, st *State) (res
 					ip.event(Event{Kind: "return", Args: []Val{rv}, Instr: t, GuardL: ip.GuardList(cur), Guards: ip.Guards(cur)})
 				}
 				retVals = append(retVals, rv)
-				retStates = append(retStates, &State{Heap: cur.Heap})
+				retStates = append(retStates, &State{Heap: cur.Heap, facts: ip.GuardList(cur)})
 				retBlocks = append(retBlocks, b)
 				live = false
 			case *ssa.Panic:
@@ -940,8 +998,14 @@ func (ip *Interp) Call(fn *ssa.Function, args []Val, bind []Val, st *State) (res
 			res = ip.foldVal(tree, func(e int) Val { return retVals[e] })
 		}
 		ip.gate, ip.gateExact, ip.gateSwap = "", false, false
+		// an opaque merged result gets an identity: the caller can test it against nil, forward it, and a rule
+		// can tell that a value is "what that call returned"
+		if t, ok := res.(*Top); ok && t.Key == "" && t.NilIf == nil && !t.NonNil && t.T != nil {
+			ip.fresh++
+			res = &Top{T: t.T, Key: fmt.Sprintf("ret#%d:%s", ip.fresh, fn.Name())}
+		}
 	}
-	return res, &State{Heap: outS.Heap, refine: st.refine}
+	return res, &State{Heap: outS.Heap, refine: st.refine, facts: unionFacts(st.facts, outS.facts)}
 }
 
 // callPath interprets a function containing loops along its unique feasible path.
@@ -1078,7 +1142,7 @@ func (ip *Interp) runPath(fn *ssa.Function, act *activation, st *State, prev, b 
 					}
 					h := ip.joinHeaps(oT.Heap, oF.Heap)
 					ip.gate, ip.gateExact, ip.gateSwap = "", false, false
-					return res, &State{Heap: h, refine: st.refine}
+					return res, &State{Heap: h, refine: st.refine, facts: intersectFacts(oT.facts, oF.facts)}
 				default:
 					ip.Imprecise("undecided branch inside a loop of " + fn.String())
 					return ip.topOf(fn.Signature.Results(), "loop"), st
@@ -1101,7 +1165,7 @@ func (ip *Interp) runPath(fn *ssa.Function, act *activation, st *State, prev, b 
 				if ip.TraceReturns {
 					ip.event(Event{Kind: "return", Args: []Val{rv}, Instr: t, GuardL: ip.GuardList(cur), Guards: ip.Guards(cur)})
 				}
-				return rv, &State{Heap: cur.Heap, refine: st.refine}
+				return rv, &State{Heap: cur.Heap, refine: st.refine, facts: unionFacts(st.facts, ip.GuardList(cur))}
 			case *ssa.Panic:
 				ip.event(Event{Kind: "panic", Args: []Val{ip.get(act, cur, t.X)}, Instr: t})
 				return nil, nil
@@ -1321,7 +1385,7 @@ func (ip *Interp) foldState(n *mnode, in []edgeIn) *State {
 			nr[k] = ip.JoinVal(v, w)
 		}
 	}
-	return &State{Heap: h, refine: nr}
+	return &State{Heap: h, refine: nr, facts: intersectFacts(a.facts, b.facts)}
 }
 
 func (ip *Interp) refineEdge(act *activation, s *State, cond ssa.Value, cb *Bool, outcome bool) {
@@ -1603,7 +1667,15 @@ func (ip *Interp) step(act *activation, st *State, instr ssa.Instruction) bool {
 	case *ssa.IndexAddr:
 		act.env[t] = ip.indexAddr(act, st, t)
 	case *ssa.Slice:
-		act.env[t] = ip.sliceOp(act, st, t)
+		res := ip.sliceOp(act, st, t)
+		act.env[t] = res
+		if ip.TraceDyn {
+			if src, ok := ip.get(act, st, t.X).(*Slice); ok {
+				if rs, ok := res.(*Slice); ok {
+					ip.event(Event{Kind: "slice-op", Args: []Val{src, rs}, Instr: t})
+				}
+			}
+		}
 	case *ssa.Store:
 		a := ip.get(act, st, t.Addr)
 		p, ok := a.(*Ptr)
@@ -2253,6 +2325,7 @@ func (ip *Interp) callFunc(st *State, site ssa.CallInstruction, fn *ssa.Function
 			return nil, false
 		}
 		st.Heap = out.Heap
+		st.facts = out.facts
 		return res, true
 	}
 	name := fn.String()
